@@ -159,3 +159,65 @@ def structured_valid_cells():
                         continue
                     out.append(mkcell(res, bc, ds))
     return out
+
+
+# ---------------------------------------------------------------- hierarchy helpers (python oracle)
+
+def parent(h, pres):
+    res, bc, ds = fields(h)
+    return mkcell(pres, bc, ds[:pres])
+
+
+def children(h, cres):
+    """python enumeration of the children of a *valid* cell (independent oracle)"""
+    res, bc, ds = fields(h)
+    ds = ds[:res]
+    out = []
+
+    def rec(prefix):
+        if len(prefix) == cres:
+            out.append(mkcell(cres, bc, prefix))
+            return
+        pent = bc in PENT_SET and all(d == 0 for d in prefix)
+        for d in range(7):
+            if pent and d == 1:
+                continue
+            rec(prefix + [d])
+    rec(list(ds))
+    return out
+
+
+def children_size(h, cres):
+    res = (h >> 52) & 15
+    n = cres - res
+    return 1 + 5 * (7 ** n - 1) // 6 if is_pentagon(h) else 7 ** n
+
+
+def rand_set(rng, res=None, maxsize=3000):
+    """a set of distinct valid cells of one resolution: subtrees, partial families, pentagon
+    families, isolated cells"""
+    res = rng.randrange(1, 16) if res is None else res
+    cells = set()
+    for _ in range(rng.randrange(1, 6)):
+        k = rng.randrange(5)
+        depth = rng.randrange(0, min(res, 4) + 1)
+        anc = rand_cell(rng, res=res - depth, bc=(rng.choice(PENT) if rng.random() < 0.4 else None))
+        if k == 4:   # centre chain under a pentagon
+            anc = mkcell(res - depth, rng.choice(PENT), [0] * (res - depth))
+        kids = children(anc, res)
+        if k == 0:
+            cells.update(kids)
+        elif k == 1:   # remove 1-3
+            rng.shuffle(kids)
+            cells.update(kids[rng.randrange(1, 4):])
+        elif k == 2:   # partial
+            cells.update(kids[:rng.randrange(1, len(kids) + 1)])
+        elif k == 3:
+            cells.add(rng.choice(kids))
+        else:
+            cells.update(kids)
+        if len(cells) > maxsize:
+            break
+    cells = list(cells)[:maxsize]
+    rng.shuffle(cells)
+    return cells
